@@ -35,6 +35,12 @@ func genHistory(r *rand.Rand, maxSide, maxLen int, alphaOnly bool) animHist {
 	if r.Intn(12) == 0 {
 		h.CW, h.CH = 1, 1
 	}
+	if r.Intn(5) == 0 { // elongated canvases
+		h.CW, h.CH = 8+r.Intn(3*maxSide), 2+r.Intn(max(2, maxSide/3))
+		if r.Intn(2) == 0 {
+			h.CW, h.CH = h.CH, h.CW
+		}
+	}
 	alpha := pickS(r, "opaque", "opaque", "binary", "gradient", "levels3", "blocks", "noise", "transparentrgb")
 	if alphaOnly {
 		alpha = pickS(r, "binary", "gradient", "levels3", "blocks", "noise", "transparentrgb", "levels16", "onepix")
@@ -42,15 +48,55 @@ func genHistory(r *rand.Rand, maxSide, maxLen int, alphaOnly bool) animHist {
 	cur := img.Gen(r, img.Pick(r, img.Classes), alpha, h.CW, h.CH)
 	n := 1 + r.Intn(maxLen)
 	durs := []int{0, 1, 40, 100, 1000, 0xFFFFFF, 0xFFFFFE, 0x800000, 0x7FFFFF}
+	// scripted flavour: forced key frames every kmaxScript frames, and the picture right after a
+	// (non-first) key frame erases most of the canvas: the dispose-to-background candidate matters there
+	kmaxScript := 0
+	if r.Intn(6) == 0 {
+		kmaxScript = 2 + r.Intn(2)
+		n = max(n, 2*kmaxScript+2)
+	}
 	for i := 0; i < n; i++ {
 		step := "initial"
+		forceClearMost := kmaxScript > 0 && i > kmaxScript && i%kmaxScript == 1%kmaxScript && r.Intn(3) != 0
+		if kmaxScript == 2 {
+			forceClearMost = i >= 3 && i%2 == 1 && r.Intn(3) != 0
+		}
 		if i > 0 {
 			nxt := image.NewNRGBA(cur.Rect)
 			copy(nxt.Pix, cur.Pix)
 			x0, y0 := r.Intn(h.CW), r.Intn(h.CH)
 			x1, y1 := x0+1+r.Intn(h.CW-x0), y0+1+r.Intn(h.CH-y0)
 			set := func(x, y int, c [4]byte) { o := nxt.PixOffset(x, y); copy(nxt.Pix[o:o+4], c[:]) }
-			switch k := r.Intn(12); k {
+			k := r.Intn(14)
+			if forceClearMost {
+				k = 12
+			}
+			switch k {
+			case 12, 13: // most of the picture (anchored at a corner) becomes transparent, the rest is untouched
+				fw, fh := h.CW*(60+r.Intn(36))/100, h.CH*(60+r.Intn(41))/100
+				if r.Intn(2) == 0 {
+					fw, fh = min(h.CW, h.CH), min(h.CW, h.CH) // the largest origin-anchored square
+				}
+				ox, oy := 0, 0
+				if r.Intn(4) == 0 {
+					ox, oy = h.CW-fw, h.CH-fh
+				}
+				step = fmt.Sprintf("clear-most[%d,%d,%d,%d]", ox, oy, ox+fw, oy+fh)
+				// optionally a small sprite inside the cleared area survives
+				sx0, sy0, sx1, sy1 := -1, -1, -1, -1
+				if r.Intn(2) == 0 && fw > 2 && fh > 2 {
+					sx0, sy0 = ox+r.Intn(fw-1), oy+r.Intn(fh-1)
+					sx1, sy1 = min(ox+fw, sx0+1+r.Intn(4)), min(oy+fh, sy0+1+r.Intn(4))
+					step += "+sprite"
+				}
+				for y := oy; y < oy+fh; y++ {
+					for x := ox; x < ox+fw; x++ {
+						if x >= sx0 && x < sx1 && y >= sy0 && y < sy1 {
+							continue
+						}
+						nxt.Pix[nxt.PixOffset(x, y)+3] = 0
+					}
+				}
 			case 0:
 				step = "repeat"
 			case 1: // change k pixels inside a rectangle
@@ -182,6 +228,9 @@ func genHistory(r *rand.Rand, maxSide, maxLen int, alphaOnly bool) animHist {
 	case 4:
 		h.Opts.Kmin, h.Opts.Kmax = 1000, 100000
 	}
+	if kmaxScript > 0 {
+		h.Opts.Kmin, h.Opts.Kmax = 1, kmaxScript
+	}
 	return h
 }
 
@@ -225,9 +274,9 @@ func runAnimRoundTrip(c *ev.Ctx, lossyAlpha bool) {
 			"alpha plane must equal the source alpha plane frame by frame (after merging consecutive frames with identical alpha); codec actually used per frame read back from the file; " +
 			"distinct = (grammar steps multiset, options, codecs used)"
 	}
-	n := c.N(2500, 60000)
+	n := c.N(8000, 600000)
 	if lossyAlpha {
-		n = c.N(1500, 20000)
+		n = c.N(5000, 250000)
 	}
 	var cases []ev.Case
 	for i := 0; i < n; i++ {
@@ -286,7 +335,19 @@ func animOne(c *ev.Ctx, cs ev.Case, lossyAlpha bool) {
 	codecs := ""
 	if info != nil {
 		seen := map[string]bool{}
-		for _, f := range info.Frames {
+		for i, f := range info.Frames {
+			if i > 0 && f.X == 0 && f.Y == 0 && f.W == h.CW && f.H == h.CH {
+				c.Count("nonfirst_full_canvas_frames", 1)
+				if f.Dispose && i+1 < len(info.Frames) {
+					c.Count("nonfirst_full_canvas_frames_disposed_to_background", 1)
+					if h.CW != h.CH {
+						c.Count("nonfirst_full_canvas_frames_disposed_to_background_nonsquare", 1)
+					}
+				}
+			}
+			if f.Dispose {
+				c.Count("frames_disposed_to_background", 1)
+			}
 			if f.BS != nil {
 				k := f.BS.Codec
 				if f.HasALPH {
@@ -359,9 +420,9 @@ func animOne(c *ev.Ctx, cs ev.Case, lossyAlpha bool) {
 		stepKinds[k] = true
 	}
 	ks := ""
-	for _, k := range []string{"initial", "repeat", "speckle", "alpha", "recolour-opaque-only", "semi", "full", "diagonal", "edge-line", "clear", "onepixel", "fade", "rect"} {
+	for _, k := range []string{"initial", "repeat", "speckle", "alpha", "recolour-opaque-only", "semi", "full", "diagonal", "edge-line", "clear", "clear-most", "onepixel", "fade", "rect"} {
 		if stepKinds[k] {
-			ks += k[:2]
+			ks += k[:2] + k[len(k)-1:]
 		}
 	}
 	c.Distinct(fmt.Sprintf("%s|%s|L=%v M=%v Q=%d k=%d/%d|%s", ks, sizeBucket(h.CW, h.CH), h.Opts.Lossless, h.Opts.AllowMixed, h.Opts.Quality, h.Opts.Kmin, h.Opts.Kmax, codecs))
